@@ -4,6 +4,8 @@ and compared with the ONE result the specification prescribes (R: every state of
 validated by Trace_Ops).'''
 from fractions import Fraction
 
+import static_frame as sf
+
 from .. import project as P
 from . import common as C, ops
 
@@ -63,6 +65,13 @@ def call(cs, f, s):
         return f.relabel_level_drop(**{'index' if cs['axis'] == 0 else 'columns': cs['n']})
     if op == 'f_rehierarch':
         return f.rehierarch(**{'index' if cs['axis'] == 0 else 'columns': list(cs['dm'])})
+    if op in ('s_relabel_flat', 'f_relabel_flat'):
+        r = s.relabel_flat() if op == 's_relabel_flat' else f.relabel_flat(**{'index' if cs['axis'] == 0 else 'columns': True})
+        ax = r.index if (op == 's_relabel_flat' or cs['axis'] == 0) else r.columns
+        other = None if op == 's_relabel_flat' else (r.columns if cs['axis'] == 0 else r.index)
+        if ax.depth != 1 or ax.__class__ not in (sf.Index, sf.IndexGO) or (other is not None and other.depth != 1):
+            raise AssertionError('relabel_flat left a %s of depth %d' % (ax.__class__.__name__, ax.depth))
+        return r
     if op == 's_searchsorted':
         q = [P.dec(x) for x in cs['q']]
         q = q if cs['many'] else q[0]
@@ -84,8 +93,8 @@ def call(cs, f, s):
 OPS = ('s_reindex', 'f_reindex', 's_roll', 's_shift', 'f_roll', 'f_shift', 's_head', 'f_head', 's_duplicated', 's_drop_duplicated',
        'f_duplicated', 'f_drop_duplicated', 's_isin', 'f_isin', 'f_transpose', 's_clip', 'f_clip',
        's_searchsorted',
-       's_level_add', 's_level_drop', 's_rehierarch', 'f_level_add', 'f_level_drop', 'f_rehierarch', 's_map', 'f_map')
-HIER_OPS = OPS[-8:-2]
+       's_level_add', 's_level_drop', 's_rehierarch', 'f_level_add', 'f_level_drop', 'f_rehierarch', 's_relabel_flat', 'f_relabel_flat', 's_map', 'f_map')
+HIER_OPS = OPS[-10:-2]
 
 
 def _target(rng, labels):
@@ -181,6 +190,8 @@ def gen_hier(rng, op):
         labs = _tree_labels(rng, n, depth)
         col = C.rand_column(rng, rng.choice('ifU'), len(labs))
         s = {'index': labs, 'vals': col['vals'], 'dt': col['dt'], 'name': rng.choice([['none'], ['s', 'nm']])}
+        if op == 's_relabel_flat':
+            return {'op': op, 's': s}, None
         if op == 's_level_add':
             return {'op': op, 's': s, 'v': rng.choice([['s', 'X'], ['i', 0]])}, None
         if op == 's_level_drop':
@@ -196,6 +207,8 @@ def gen_hier(rng, op):
         f['columns'] = _tree_labels(rng, len(f['columns']), depth)
         f['cols'] = f['cols'][:len(f['columns'])]
     lay = C.rand_layout(rng, f)
+    if op == 'f_relabel_flat':
+        return {'op': op, 'f': f, 'axis': axis}, lay
     if op == 'f_level_add':
         return {'op': op, 'f': f, 'axis': axis, 'v': rng.choice([['s', 'X'], ['i', 0]])}, lay
     if op == 'f_level_drop':
